@@ -126,7 +126,8 @@ BuiltinShapes == {M(<<>>), M(1 :> X(0)), M(2 :> X(0)), M((1 :> X(0)) @@ (2 :> X(
 UFoldQ  == <<BuiltinShapes, Shapes3(FALSE), Shapes3(TRUE)>>
 UOrder  == <<{M(1 :> X(0)), M((1 :> X(0)) @@ (2 :> X(0))), M(1 :> M((1 :> X(0)) @@ (2 :> X(0))))}, Shapes3(FALSE), Shapes3(TRUE)>>
 UFold3D == <<BuiltinShapes, Shapes3(TRUE), Shapes3(TRUE)>>                      \* built-in, API document, override
-UFold4  == <<BuiltinShapes, Shapes3(FALSE), Shapes3(FALSE), Shapes3(TRUE)>>     \* built-in, two files, override
+UFold4  == <<{M(1 :> X(0)), M((1 :> X(0)) @@ (2 :> X(0))), M(1 :> M((1 :> X(0)) @@ (2 :> X(0))))},
+             Shapes3(FALSE), Shapes3(FALSE), Shapes3(TRUE)>>                     \* built-in, two files, override
 ShapesPathQ == {M(<<>>), M(1 :> X(0)), M(1 :> D(0)), M(1 :> M(1 :> X(0))), M(1 :> M(1 :> M(1 :> X(0)))),
                 M(1 :> M(1 :> M(1 :> D(0)))), M(1 :> M((1 :> M(1 :> X(0))) @@ (2 :> M(1 :> X(0)))))}
 UHistQ  == <<{M(<<>>), M(1 :> X(0)), M((1 :> X(0)) @@ (2 :> X(0)))}, ShapesPathQ, ShapesPathQ>>
@@ -275,7 +276,7 @@ Spec == Init /\ [][Next]_vars
 (* merge.precedence / merge.default_marker / merge.deep_union: between operations every builder's section   *)
 (* is the Merge-fold of the source values                                                                  *)
 Refines ==
-    op = Idle => \A b \in Builders : (broot[b] # 0 /\ ~loose[b]) => Match(M(pcfg[b]), Deref(heap, broot[b]), TRUE)
+    op = Idle => \A b \in Builders : broot[b] # 0 => Match(M(pcfg[b]), Deref(heap, broot[b]), TRUE)
 (* merge.doc_unmodified: at every step, also in the middle of an update                                     *)
 DocsUnmodified == op.kind # "boot" => \A d \in 1..NDocs : Deref(heap, docroot[d]) = doc0[d]
 (* merge.ctx_stable: a context keeps reporting what it reported, whatever other builders do                  *)
